@@ -233,7 +233,8 @@ Proof.
       (split; [rewrite F1; reflexivity|]); (split; [rewrite F2; exact Hi|]); auto.
   - destruct inp as [|c rest].
     + exists [], []. split; [reflexivity|].
-      unfold run_eof. destruct (eof_action_of (l_sc s)) as [[| | |k]|]; cbn [step_state step_pos step_closed];
+      unfold run_eof. destruct (eof_action_of (l_sc s)) as [[| | |k]|]; try destruct (l_rderr s);
+        cbn [step_state step_pos step_closed clear_rderr l_bufs l_inc];
         rewrite ?Hb, ?Hi, ?N.add_0_r; auto 10.
     + exfalso. destruct (munch_covered (l_sc s) c rest) as [b Hb']. congruence.
 Qed.
